@@ -78,9 +78,7 @@ class ArgParseFamily:
             # an invariant of the specification itself failed: the model is wrong (or a defect switch is on); not a verdict about the code
             raise Infra('exhaustive model check did not complete cleanly:\n' + ctx.tlc_error_summary(out))
         states, gen = ctx.tlc_counts(out)
-        scns = []
-        for m in re.finditer(r'^"SCN (.*)"$', out, re.M):
-            scns.append(json.loads(m.group(1).replace('\\"', '"').replace('\\\\', '\\')))
+        scns = parse_scn(out, ctx)
         return states, gen, scns, d, dict(decls=decls, maxlen=maxlen, popts=len(b['popts']), handlers=b['handlers'], policy=b['policy'], premode=b.get('premode', 'none'))
 
     def mc_spell(self, ctx):
@@ -99,9 +97,7 @@ class ArgParseFamily:
         if not ctx.tlc_ok(out):
             raise Infra('exhaustive pair model did not complete cleanly:\n' + ctx.tlc_error_summary(out))
         states, gen = ctx.tlc_counts(out)
-        scns = []
-        for m in re.finditer(r'^"SCN (.*)"$', out, re.M):
-            scns.append(json.loads(m.group(1).replace('\\"', '"').replace('\\\\', '\\')))
+        scns = parse_scn(out, ctx)
         return states, gen, scns, d, dict(decls=decls, ctxlen=ctxlen, popts=len(popts), pairs=len(scns))
 
     def mc_conv(self, ctx):
@@ -118,7 +114,7 @@ class ArgParseFamily:
         if not ctx.tlc_ok(out):
             raise Infra('exhaustive conversion model did not complete cleanly:\n' + ctx.tlc_error_summary(out))
         states, gen = ctx.tlc_counts(out)
-        scns = parse_scn(out)
+        scns = parse_scn(out, ctx)
         self.cat_override = (os.path.join(d, 'conv_trees.ndjson'), os.path.join(d, 'conv_decls.ndjson'))
         return states, gen, scns, d, dict(module='MC_Conv', declarations=ndecl, maxdig=maxdig)
 
@@ -146,6 +142,7 @@ class ArgParseFamily:
                 mc_states, mc_trans, scns, d, mcinfo = self.mc_spell(ctx)
                 if ctx.tier == 'quick' and len(scns) > 120000:      # replay a seeded sample of the enumerated pairs in the quick tier
                     import random
+                    scns = scns.tolist() if isinstance(scns, ScnList) else scns
                     random.Random(ctx.seed).shuffle(scns)
                     scns = scns[:120000]
             else:
@@ -168,11 +165,13 @@ class ArgParseFamily:
             drift += len(bad['DRIFT'])
             msgdrift += len(bad.get('MSG', []))
             msgcmp += stats.get('msg', 0)
-            lines = open(rec).read().splitlines()
             trees = open(cat).read().splitlines()
-            for i in bad[prop]:
-                bad_all.append(('mc', i, lines[i - 1], trees))
-            samples += [self.sample(lines[k]) for k in (0, len(lines) // 2, len(lines) - 1) if lines]
+            want = [i - 1 for i in bad[prop][:50]] + ([0, n // 2, n - 1] if n else [])
+            got = pick_lines(rec, want)
+            for i in bad[prop][:50]:
+                bad_all.append(('mc', i, got[i - 1], trees))
+            nbad_extra = max(0, len(bad[prop]) - 50)
+            samples += [self.sample(got[k]) for k in (0, n // 2, n - 1) if n]
             ctx.log('replayed %d TLC-enumerated scenarios on the real code: %d disagree on %s' % (n, len(bad[prop]), prop))
         # 3: random direction
         nt, per = ARG_RANDOM[ctx.tier]
@@ -184,11 +183,11 @@ class ArgParseFamily:
         drift += len(bad['DRIFT'])
         msgdrift += len(bad.get('MSG', []))
         msgcmp += stats.get('msg', 0)
-        rlines = open(rrec).read().splitlines()
         rtrees = open(os.path.join(ctx.work, 'r_trees.ndjson')).read().splitlines()
-        for i in bad[prop]:
-            bad_all.append(('random', i, rlines[i - 1], rtrees))
-        samples += [self.sample(rlines[k]) for k in (0, len(rlines) // 3, 2 * len(rlines) // 3) if rlines]
+        got = pick_lines(rrec, [i - 1 for i in bad[prop][:50]] + ([0, rn // 3, 2 * rn // 3] if rn else []))
+        for i in bad[prop][:50]:
+            bad_all.append(('random', i, got[i - 1], rtrees))
+        samples += [self.sample(got[k]) for k in (0, rn // 3, 2 * rn // 3) if rn]
         ctx.log('validated %d recorded random scenarios: %d disagree on %s; %d in the property\'s domain; model drift %d; error-message wording compared %d, differing %d'
                 % (rn, len(bad[prop]), prop, domcount, drift, msgcmp, msgdrift))
         # 4: classify
@@ -275,7 +274,10 @@ class ArgParseFamily:
 # Generic pipeline for the families whose scenarios carry their own declaration
 # ---------------------------------------------------------------------------------------------
 
-def parse_scn(out):
+def parse_scn(out, ctx=None):
+    """the scenarios of the TLC run that has just ended (vlib.Ctx.tlc moved them to a file)"""
+    if ctx is not None and getattr(ctx, 'last_scn', None):
+        return ScnList([ctx.last_scn])
     scns = []
     for m in re.finditer(r'^"SCN (.*)"$', out, re.M):
         scns.append(json.loads(m.group(1).replace('\\"', '"').replace('\\\\', '\\')))
@@ -313,7 +315,7 @@ class SimpleFamily:
         if not ctx.tlc_ok(out):
             raise Infra('exhaustive model check did not complete cleanly:\n' + ctx.tlc_error_summary(out))
         states, gen = ctx.tlc_counts(out)
-        return states, gen, parse_scn(out), info
+        return states, gen, parse_scn(out, ctx), info
 
     def prepare_mc(self, ctx, d):
         pass
@@ -474,7 +476,7 @@ class SessionFamily:
         if not ctx.tlc_ok(out):
             raise Infra('exhaustive model check did not complete cleanly:\n' + ctx.tlc_error_summary(out))
         states, gen = ctx.tlc_counts(out)
-        return states, gen, parse_scn(out), d, dict(module=c['mc'], mode=c['mode'], decls=decls, maxlines=ml)
+        return states, gen, parse_scn(out, ctx), d, dict(module=c['mc'], mode=c['mode'], decls=decls, maxlines=ml)
 
     def sample(self, line):
         r = json.loads(line)
@@ -646,9 +648,10 @@ class DeterminismFamily(SessionFamily):
         if not ctx.tlc_ok(out):
             raise Infra('exhaustive model check did not complete cleanly:\n' + ctx.tlc_error_summary(out))
         mc_states, mc_trans = ctx.tlc_counts(out)
-        scns = parse_scn(out)
+        scns = parse_scn(out, ctx)
         if len(scns) > (20000 if th else 1500):
             import random
+            scns = scns.tolist() if isinstance(scns, ScnList) else scns
             random.Random(ctx.seed).shuffle(scns)
             scns = scns[:(20000 if th else 1500)]
         ctx.log('model: %d files examined, %d order-sensitive ones selected for repeated execution' % (mc_states, len(scns)))
@@ -748,7 +751,7 @@ class CompletionFamily(SessionFamily):
         if th:
             configs = [([14], 2, ['<<>>', '<<"HelpFlag", "PassDoubleDash">>', '<<"PassDoubleDash">>']), ([5, 13], 3, ['<<>>', '<<"HelpFlag", "PassDoubleDash">>'])]
         states = gen = 0
-        scns, infos, d = [], [], None
+        scns, infos, d = ScnList(), [], None
         for k, (decls, mw, popts) in enumerate(configs):
             d = ctx.specdir('mc%d' % k)
             ctx.vh('decls', '-trees', cat, '-decls', os.path.join(d, 'catalog_decls.ndjson'))
@@ -760,7 +763,7 @@ class CompletionFamily(SessionFamily):
                 raise Infra('exhaustive completion model did not complete cleanly:\n' + ctx.tlc_error_summary(out))
             s1, g1 = ctx.tlc_counts(out)
             states, gen = states + s1, gen + g1
-            scns += parse_scn(out)
+            scns = scns + parse_scn(out, ctx)
             infos.append(dict(decls=decls, maxwords=mw, popts=len(popts), states=s1))
         return states, gen, scns, d, dict(module='MC_Completion', configs=infos)
 
@@ -827,7 +830,7 @@ class HelpFamily(SessionFamily):
         if not ctx.tlc_ok(out):
             raise Infra('exhaustive help model did not complete cleanly:\n' + ctx.tlc_error_summary(out))
         states, gen = ctx.tlc_counts(out)
-        scns = parse_scn(out)
+        scns = parse_scn(out, ctx)
         # every enumerated case is replayed as built-in help, inside ErrHelp, and (one width per chain) as man page
         extra = []
         for sc in scns:
@@ -837,7 +840,7 @@ class HelpFamily(SessionFamily):
                 e = dict(sc); e['kind'] = 'man'; extra.append(e)
             if sc['width'] % 5 == 1:
                 e = dict(sc); e['kind'] = 'rehelp'; extra.append(e)
-        return states, gen, scns + extra, d, dict(module='MC_Help', decls=decls, widths='0..%d' % mw)
+        return states, gen, (scns.tolist() if isinstance(scns, ScnList) else scns) + extra, d, dict(module='MC_Help', decls=decls, widths='0..%d' % mw)
 
     def random_part(self, ctx, prop, kind, repeat=1):
         nt, per = (150, 30) if ctx.tier == 'quick' else (1500, 40)
